@@ -5,6 +5,7 @@ tools/conformance.py (1) lets pyvc prove the contract from this source and (2) r
 inputs and evaluates the same contract natively.  A contract that pyvc proves but CPython violates is an unsound encoding.
 """
 from itertools import product, combinations
+from bisect import bisect_right
 
 
 def floordiv_mod(a, b):
@@ -158,7 +159,46 @@ def comb_gaps(n):
 
 
 C = 'conformance/cases.py'
+def fill_table(n, s):
+    t = [s]
+    for i in range(n):
+        t.append(t[-1] + 1)
+    return t
+
+
+def first_free(n):
+    return n + 1
+
+
+def sorted_pair(a, b):
+    s = sorted((a, b))
+    return (s[0], s[1])
+
+
+def weigh3(x, y, z):
+    return x + 2 * y + 3 * z
+
+
+def star_call(t):
+    return weigh3(*t)
+
+
+def table_lookup(n, s, x):
+    t = [None, s]
+    for i in range(n):
+        t.append(t[-1] + 2)
+    return bisect_right(t, x) - 1
+
+
 CONTRACTS = {
+    # sorted() of a pair, f(*t) for a tuple of known length, a 1-based table [None, ...] searched with bisect_right
+    (C, 'sorted_pair'): {'params': {'a': 'int', 'b': 'int'}, 'raises': {}, 'returns': 'tuple:int,int',
+                         'ensures': ['result[0] <= result[1]', '(result[0] == a and result[1] == b) or (result[0] == b and result[1] == a)']},
+    (C, 'weigh3'): {'params': {'x': 'int', 'y': 'int', 'z': 'int'}, 'raises': {}, 'returns': 'int', 'ensures': ['result == x + 2 * y + 3 * z']},
+    (C, 'star_call'): {'params': {'t': 'tuple:int,int,int'}, 'raises': {}, 'returns': 'int', 'ensures': ['result == t[0] + 2 * t[1] + 3 * t[2]']},
+    (C, 'table_lookup'): {'params': {'n': 'int', 's': 'int', 'x': 'int'}, 'requires': ['n >= 0', 'x >= s'], 'raises': {}, 'returns': 'int',
+                          'loops': {0: {'inv': ['len(t) == _it + 2', 'forall(lambda u: implies(1 <= u and u <= _it + 1, t[u] == s + 2 * (u - 1)), lambda u: t[u])']}},
+                          'ensures': ['1 <= result', 'result <= n + 1', 's + 2 * (result - 1) <= x', 'result == n + 1 or x < s + 2 * result']},
     # exceptions of primitive operations are HAZARD obligations in pyvc: the precondition is the exact no-exception condition
     (C, 'floordiv_mod'): {'params': {'a': 'int', 'b': 'int'}, 'requires': ['b != 0'], 'raises': {}, 'returns': 'tuple:int,int',
                           'ensures': ['result[0] * b + result[1] == a', '(b > 0 and 0 <= result[1] and result[1] < b) or (b < 0 and b < result[1] and result[1] <= 0)']},
@@ -222,4 +262,15 @@ CONTRACTS = {
                        'loops': {0: {'nest': [{'counter': '_io', 'inv': ['2 * c == _io * (2 * n - _io - 1) or (n < 1 and c == 0)', 'c >= 0']},
                                               {'ghost_at_entry_vals': {'C0': 'c'}, 'inv': ['c == C0 + _it']}]}},
                        'ensures': ['(n >= 1 and 2 * result == n * (n - 1)) or (n < 1 and result == 0)']},
+}
+
+
+# NEGATIVE cases: contracts that are FALSE (CPython refutes them).  pyvc must leave a postcondition unproved - a guard against
+# unsound engine features (the first one is the shape of a real hole found on 2026-10-03: the goal's own triggered quantifier
+# was instantiated among the hypotheses, so a false table invariant "proved").
+NEGATIVE = {
+    (C, 'fill_table'): {'params': {'n': 'int', 's': 'int'}, 'requires': ['n >= 1'], 'raises': {}, 'returns': 'intlist',
+                        'loops': {0: {'inv': ['len(t) == _it + 1', 'forall(lambda u: implies(0 <= u and u <= _it, t[u] == s + u), lambda u: t[u])']}},
+                        'ensures': ['result[0] == s', 'forall(lambda u: not (0 <= u and u <= n) or result[u] == s + u + 1, lambda u: result[u])']},
+    (C, 'first_free'): {'params': {'n': 'int'}, 'raises': {}, 'returns': 'int', 'ensures': ['result == n + 2']},
 }
